@@ -46,7 +46,7 @@ namespace igris
         while (true)
         {
             // Skip delimiters
-            while (strchr(delims, *ptr) != NULL && ptr != end)
+            while (ptr != end && *ptr != '\0' && strchr(delims, *ptr) != NULL)
                 ptr++;
 
             if (ptr == end)
@@ -54,7 +54,8 @@ namespace igris
 
             strt = ptr;
 
-            while (ptr != end && strchr(delims, *ptr) == NULL)
+            while (ptr != end &&
+                   (*ptr == '\0' || strchr(delims, *ptr) == NULL))
                 ptr++;
 
             outvec.emplace_back(strt, ptr - strt);
